@@ -212,7 +212,37 @@ try:
 except TypeError:
     pass
 
-CLASSES = (Plain, A, B, C, D, E, F, G, H, J, K, L, M, N, O, P, Q, R, S, T, U, V, W, X)
+
+
+class OS:                        # old-style declaration in the class body
+    __implemented__ = I2
+
+
+implementedBy(OS)                # converts it
+
+
+class OS2:                       # old-style, then a modern declaration on top
+    __implemented__ = (I1, I2)
+
+
+classImplements(OS2, I3)
+
+
+@implementer(I1)
+def factory():                   # a factory function that implements I1
+    return A()
+
+
+@implementer(I2)
+def factory2():
+    return A()
+
+
+classImplements(factory2, I0)    # ... and a later declaration on it
+
+CLASSES = (Plain, A, B, C, D, E, F, G, H, J, K, L, M, N, O, P, Q, R, S, T, U, V, W, X, OS, OS2)
+FACTORIES = (factory, factory2)
+EXPECTED_DECLARED = {'OS': ['I2'], 'OS2': ['I1', 'I2', 'I3'], 'factory': ['I1'], 'factory2': ['I0', 'I2']}
 BUILTINS = (list, dict, int, tuple)       # their specifications live in a registry, not on the type
 IFACES = (I0, I1, I2, I3)
 
